@@ -85,53 +85,59 @@ theorem manyDigits_sep (c : Cfg) (hS : SepClass c) (s : List Nat) (hn : NoSep c 
             simp [Bytes.new]
     · simp [pure, Except.pure] )
 
+theorem currentCount_new (c : Cfg) (l : List Nat) : Bytes.currentCount c (Bytes.new l) = 0 := by
+  simp [Bytes.currentCount, Bytes.new]
+
+/-- the many-digits re-parse of **any** valid format on separator-free input, in closed form -/
+theorem manyDigits_rel (c : Cfg) (hS : RelClass c) (s : List Nat) (hn : NoSep c s) (o : POpts) (neg : Bool)
+    (ip : IntPart) (fp : FracPart) (ep : ExpPart) (nDigits step : Nat) (ex0 : Int) (endIdx : Nat)
+    (hs : ip.start.slc = s) (hids : NoSep c ip.integerDigits) (hfd : ∀ fd, fp.fraction = some fd → NoSep c fd) :
+    manyDigitsPhase c o neg ip fp ep nDigits step ex0 endIdx =
+      manyClosed c.mantissaRadix (scaleVal c) o.dp s ip.start.index ip.integerDigits ip.nDigits fp.fraction fp.mantissa
+        ep.explicit neg nDigits step ex0 endIdx (c.feats.format && !c.bytesContiguous) := by
+  have hn0 : NoSep c ip.start.slc := by rw [hs]; exact hn
+  unfold manyDigitsPhase manyClosed manyCore
+  rw [skipZeros_nosep c .integer hS.debug (hS.reach _) ip.start hn0, iterCount_rel c .integer (Or.inl rfl)]
+  simp only [bind, Except.bind, Bytes.firstIsCased, adv_first, hs]
+  by_cases hdp : (s[ip.start.index + zerosPrefix (List.drop ip.start.index s)]? == some o.dp) = true <;>
+  simp only [hdp, if_true, Bool.false_eq_true, if_false, step_release c hS.debug, pure, Except.pure] <;>
+  ( rw [skipZeros_nosep c .fraction hS.debug (hS.reach _) _ (by simpa [hs] using hn), iterCount_rel c .fraction (Or.inr rfl)]
+    simp only [adv_slc, adv_index, hs]
+    split
+    · rw [skipZeros_nosep c .integer hS.debug (hS.reach _) _ (by simpa [new_slc] using hids)]
+      simp only [new_slc, new_index, List.drop_zero]
+      rw [parseU64_rel c .integer hS _ _ _ (by simpa [new_slc] using hids)]
+      simp only [adv_slc, adv_index, new_slc, new_index, Nat.zero_add]
+      split
+      · simp only [pure, Except.pure, currentCount_adv c .integer _ _ (by decide), currentCount_new,
+          scaleExponent_release c hS.debug, Nat.zero_add]
+      · cases hfr : fp.fraction with
+        | none => simp [hfr] at *
+        | some fd =>
+          have hnf := hfd fd hfr
+          simp only
+          split
+          · rw [skipZeros_nosep c .fraction hS.debug (hS.reach _) _ (by simpa [new_slc] using hnf)]
+            simp only [new_slc, new_index, List.drop_zero, pure, Except.pure]
+            rw [parseU64_rel c .fraction hS _ _ _ (by simpa [new_slc] using hnf)]
+            simp only [adv_slc, adv_index, new_slc, new_index, Nat.zero_add,
+              currentCount_adv c .fraction _ _ (by decide), currentCount_new,
+              scaleExponent_release c hS.debug, *]
+          · rw [parseU64_rel c .fraction hS _ _ _ (by simpa [new_slc] using hnf)]
+            simp only [new_slc, new_index, Nat.zero_add, List.drop_zero,
+              currentCount_adv c .fraction _ _ (by decide), currentCount_new,
+              scaleExponent_release c hS.debug, *]
+    · simp [pure, Except.pure] )
+
 theorem manyDigits_plain (c : Cfg) (hP : PlainClass c) (s : List Nat) (o : POpts) (neg : Bool)
     (ip : IntPart) (fp : FracPart) (ep : ExpPart) (nDigits step : Nat) (ex0 : Int) (endIdx : Nat)
     (hs : ip.start.slc = s) :
     manyDigitsPhase c o neg ip fp ep nDigits step ex0 endIdx =
       manyClosed c.mantissaRadix (scaleVal c) o.dp s ip.start.index ip.integerDigits ip.nDigits fp.fraction fp.mantissa
         ep.explicit neg nDigits step ex0 endIdx false := by
-  have hN : ∀ l, NoSep c l := hP.noSep
-  obtain ⟨e, he1, he2, he3⟩ := parseU64_plain c .integer hP
-    (adv c .integer (zerosPrefix ip.integerDigits) (Bytes.new ip.integerDigits)) 0 step
-  simp only [adv_slc, adv_index, new_slc, new_index, Nat.zero_add] at he1 he2 he3
-  unfold manyDigitsPhase manyClosed manyCore
-  rw [skipZeros_nosep c .integer hP.debug (hP.reach _) ip.start (hN _), iterCount_plain c hP .integer]
-  simp only [bind, Except.bind, Bytes.firstIsCased, adv_first, hs]
-  by_cases hdp : (s[ip.start.index + zerosPrefix (List.drop ip.start.index s)]? == some o.dp) = true <;>
-  simp only [hdp, if_true, Bool.false_eq_true, if_false, step_release c hP.debug, pure, Except.pure] <;>
-  ( rw [skipZeros_nosep c .fraction hP.debug (hP.reach _) _ (hN _), iterCount_plain c hP .fraction]
-    simp only [adv_slc, adv_index, hs]
-    split
-    · rw [skipZeros_nosep c .integer hP.debug (hP.reach _) _ (hN _)]
-      simp only [new_slc, new_index, List.drop_zero]
-      rw [he3]
-      simp only [hP.bytes, Bool.not_true, Bool.and_false, Bool.false_and, Bool.or_false]
-      split
-      · simp only [pure, Except.pure, Bytes.currentCount, hP.bytes, if_true, he2,
-          scaleExponent_release c hP.debug]
-      · cases hfr : fp.fraction with
-        | none => simp
-        | some fd =>
-          simp only
-          split
-          · rw [skipZeros_nosep c .fraction hP.debug (hP.reach _) _ (hN _)]
-            simp only [new_slc, new_index, List.drop_zero, pure, Except.pure]
-            obtain ⟨e2, hf1, hf2, hf3⟩ := parseU64_plain c .fraction hP
-              (adv c .fraction (zerosPrefix fd) (Bytes.new fd))
-              (u64Spec c.mantissaRadix (List.drop (zerosPrefix ip.integerDigits) ip.integerDigits) 0 step).2.1
-              (u64Spec c.mantissaRadix (List.drop (zerosPrefix ip.integerDigits) ip.integerDigits) 0 step).2.2
-            simp only [adv_slc, adv_index, new_slc, new_index, Nat.zero_add] at hf1 hf2 hf3
-            rw [hf3]
-            simp only [Bytes.currentCount, hP.bytes, if_true, hf2, scaleExponent_release c hP.debug, *]
-          · obtain ⟨e2, hf1, hf2, hf3⟩ := parseU64_plain c .fraction hP (Bytes.new fd)
-              (u64Spec c.mantissaRadix (List.drop (zerosPrefix ip.integerDigits) ip.integerDigits) 0 step).2.1
-              (u64Spec c.mantissaRadix (List.drop (zerosPrefix ip.integerDigits) ip.integerDigits) 0 step).2.2
-            simp only [new_slc, new_index, Nat.zero_add, List.drop_zero] at hf1 hf2 hf3
-            rw [hf3]
-            simp only [Bytes.currentCount, hP.bytes, if_true, hf2, scaleExponent_release c hP.debug, *]
-            simp
-    · simp [pure, Except.pure] )
+  rw [manyDigits_rel c hP.rel s (hP.noSep _) o neg ip fp ep nDigits step ex0 endIdx hs (hP.noSep _)
+    (fun _ _ => hP.noSep _)]
+  simp [hP.bytes]
 
 theorem zerosPrefix_take_le (n : Nat) (l : List Nat) : zerosPrefix (l.take n) ≤ zerosPrefix l := by
   induction l generalizing n with
